@@ -217,8 +217,9 @@ def evalDefs (ρ : Env) : Defs → Env
   | [] => ρ
   | (s, e) :: t => evalDefs (upd ρ s (e.eval ρ)) t
 
-/-- `s.name[0:4] == "_ret"` -/
-def isRet (s : String) : Bool := s.toList.take 4 == ['_', 'r', 'e', 't']
+/-- `s.name == "_ret" or s.name.startswith("_ret.")`: exactly the return bits -/
+def isRet (s : String) : Bool :=
+  s.toList == ['_', 'r', 'e', 't'] || s.toList.take 5 == ['_', 'r', 'e', 't', '.']
 
 def names (l : Defs) : List String := l.map (·.1)
 /-- the return symbols of a list, in order, with repetitions -/
